@@ -38,7 +38,7 @@ CHECKS = {
              " Owner-loop states: running, open but not started yet (the calls are queued and run once it starts), closed; owner either a plain thread or bellows' EventLoopThread (start / force_stop with calls in flight)."
              " What the owner's loop reports for a queued plain call is part of the model (a call handing back any value - also 0 / False / empty - is reported as a TypeError); kinds include plain methods returning falsy values and a plain function wrapping a coroutine function."
              " Kinds include instance attributes shadowing class methods of the other kind."
-             " Coroutine calls whose result is never awaited are executed all the same (coroForget).",
+             " Coroutine calls whose result is never awaited are executed all the same (coroForget). Keyword-argument calls and coroutines nobody awaits (their failure must reach the loop's exception handler) are among the call kinds.",
         design_ref="3/C20",
         note="Real OS threads: schedules are sampled, not enumerated; the verdict depends only on per-thread order, never on wall-clock "
              "order across threads (generous wall-clock limits only detect blocking). A stopped-but-not-closed loop is outside the property.",
@@ -96,7 +96,7 @@ CHECKS = {
              "staggered mixes with multicast / broadcast and unsolicited confirmations, random mixes; TLC validates each run."
              " NCP versions 15 and 16 (newest known tables) are included."
              " With an NCP that takes 10 ms over every set-up command the caller is cancelled between two set-up commands while other requests wait for the lock: a block ends with its request, and set-up commands are only accepted on behalf of a request in progress."
-             " Version-14 confirmations also carry 16-bit tags that differ from the pending one only above the low byte.",
+             " Version-14 confirmations also carry 16-bit tags that differ from the pending one only above the low byte. An NCP that takes 800 ms over every send command: retries are spaced from the busy answer, not from the call.",
         design_ref="3/C12",
         note="Trusted: zigpy.util.Requests shim (compat.py), simulated EZSP NCP (enqueue answers; messageSentHandler in the version's "
              "field order), virtual time. RETRY_DELAYS and APS_ACK_TIMEOUT read from the tree (configuration).",
@@ -120,7 +120,7 @@ CHECKS = {
              "failure kind after each of the first wire steps (registered or not) and random fault / failure schedules on versions 4..14 "
              "must be behaviours of the composed model (Trace_Stack, SilentAfterRequest / StoppedAfterRequest on every state)."
              " Workloads include a list command (scan) in progress, a command after a completed scan, and an NCP silent from the start; failure kinds include a deliberate close on a transport that reports the closed connection late."
-             " In the silent workload the caller of the command in flight may give up before the link does: the link's verdict must still reach the application.",
+             " In the silent workload the caller of the command in flight may give up before the link does: the link's verdict must still reach the application. A one-shot listener (a scan's registration that removes itself on its terminal event) is one of the workloads; a request made just before a silent failure is part of the end clause.",
         design_ref="3/C10",
         note="Trusted: full-stack rig (fake serial transport that stops delivering reads once closed, simulated ASH + EZSP NCP), virtual "
              "time. A silent NCP is noticed only when something is sent (the harness issues the keep-alive a watchdog would); an "
@@ -259,7 +259,7 @@ CHECKS = {
              "(raise/return, exception class, keep-alive command seen by the NCP, connection_lost iff raised)."
              " Restart-length failure runs are started 7..0 feeds before the first and the second periodic read-and-clear feed."
              " Counter reads may carry fewer or more values than the host has counter types (1 / 40 / 43 / 60)."
-             " Frames the NCP sends on its own between feeds are no keep-alive outcome (callback step).",
+             " Frames the NCP sends on its own between feeds are no keep-alive outcome (callback step). Feeds that are cancelled mid-way are a step (the counter is unchanged by them).",
         design_ref="3/C19",
         note="Trusted: zigpy.util.Requests shim (compat.py), simulated EZSP NCP, virtual-time loop. MAX_WATCHDOG_FAILURES and the clear period "
              "are read from the tree as configuration.",
@@ -321,7 +321,7 @@ CHECKS = {
              "4 (quick) / 5 + length 6 over 6 core reactions (thorough: 0.7 M scripts, streamed in batches) x 3 workloads, all "
              "full-budget scripts, adaptive-timeout ramps, all codes and random long scripts run on the real AshProtocol in virtual "
              "time; TLC validates each trace against Trace_AshHost incl. the 400..3200 ms bound on every timeout-driven step."
-             " Callers are cancelled at every point of short scripts (in flight, during a retransmission wait, while queued): invisible on the link (cancelled-caller set in Trace_AshHost).",
+             " Callers are cancelled at every point of short scripts (in flight, during a retransmission wait, while queued): invisible on the link (cancelled-caller set in Trace_AshHost). The host's own RST on a failed link (send_reset) is a step: the link stays failed and silent until the RSTACK. The observers also see the end of a send whose caller was cancelled.",
         design_ref="3/C05",
         note="Trusted: virtual-time loop (bv.vloop) with bellows.ash's `time` rebound to it; ashref.py. Retry budget read from the "
              "tree (configuration); ACK timeout bounds and error code 0x51 pinned from the ASH text.",
@@ -349,7 +349,7 @@ CHECKS = {
              "status, table write, NCP table and behaviourally probed host view bound at each step."
              " Initial tables also carry free entries with left-over group ids (what unsubscribe leaves behind), including the id of a group that is live at another index, and histories contain restarts (a second start-up scan over the table the host itself produced)."
              " NcpChange: the NCP's table changes behind the host's back and start-up runs again on the same object (every pair of tables). Overlapping calls: spec/MulticastConc.tla (Begin / End per call) is model-checked for calls on different groups and bound to the real object with table writes answered when the schedule says so; overlapping calls for the same group are a recorded deviation (TLC counter-example required)."
-             " The real startup(coordinator) runs with group memberships on several endpoints (also the same group on two endpoints); no group may end up in two entries (Unique).",
+             " The real startup(coordinator) runs with group memberships on several endpoints (also the same group on two endpoints); no group may end up in two entries (Unique). A caller cancelled while its write is still queued in front of the NCP (CancelQueued): the write never happens, a subscribe gives its index back; Probe compares the NCP table as well.",
         design_ref="3/C15",
         note="Trusted: command-level simulated NCP (does not apply rejected/timed-out writes), deep-copy "
              "behavioural probes of the host view, TLC.",
